@@ -105,7 +105,7 @@ func runProgFast(p *Prog) *Result {
 	ir.DeclFunc("hk", func() { trace.Hooks++ })
 	ir.DeclFunc("nc", func(v interface{}) interface{} { return tr.NoCap{V: v} })
 	timedOut := false
-	timer := time.AfterFunc(15*time.Second, func() { timedOut = true; ir.Interrupt(os.Interrupt) })
+	timer := time.AfterFunc(60*time.Second, func() { timedOut = true; ir.Interrupt(os.Interrupt) })
 	defer timer.Stop()
 	before := fast.VerifCounters()
 	finish := func() *Result {
@@ -123,7 +123,7 @@ func runProgFast(p *Prog) *Result {
 		res.Hooks = trace.Hooks
 		if timedOut {
 			res.End = "crash"
-			res.Detail = "watchdog: program did not finish in 15 s (inconclusive)"
+			res.Detail = "watchdog: program did not finish in 60 s (inconclusive)"
 		}
 		return res
 	}
